@@ -503,6 +503,16 @@ def plan(ctx):
                                     replace=['parse_float__' + ty], defines=base, min_post=2,
                                     clause_note='contracts/C17_getters.h: present => parse_float outcome, argument marked read; absent => the default if supplied, else out_of_range',
                                     replay=Replay(mode='getter', extra=['get_float', ty, idn, case], **RP)))
+    # "a command line given as one string is first tokenised like a shell would": the quote/escape state machine of split_args is
+    # proved by C08's group (lock-step reference automaton, loop contract); it is run here too so that a change to the tokeniser is
+    # reported under C17 as well (the quote-free group above is this module's own, weaker, statement)
+    from props import C08 as c08
+    saved = list(ctx.functions_under_contract)
+    for g in c08.plan(ctx):
+        if g.name == 'split_args':
+            g.name = 'Strings.split_args[C08 automaton]'
+            groups.append(g)
+    ctx.functions_under_contract = saved
     return groups
 
 
